@@ -65,6 +65,8 @@ def rand_value(rng, known):
             return {"t": "ListOf", "typename": t, "items": items}
         if r < 0.6:
             return c08.rand_value(rng, False) if rng.random() < 0.5 else {"t": "XmlElement", "v": "<a b=\"1\">%s</a>" % gen.plain_text(rng)}
+        if rng.random() < 0.08:       # ranges with non-finite bounds
+            return {"t": "EURange", "low": rng.choice(["-inf", "nan", "-1.5", "0.0"]), "high": rng.choice(["inf", "nan", "100.0"])}
         v = values.rand_value(rng)
         while v["t"] in ("ListOf", "NodeId") or (v["t"] in ("Int64", "UInt64") and v["v"] is not None and abs(v["v"]) > 2**53):
             v = values.rand_value(rng)
@@ -207,7 +209,9 @@ def shape(v, j):
         shape({"t": "NodeId", "v": v["type"]}, j["TypeId"])
         assert isinstance(j["Body"], str) and num(j["Encoding"]) == 2
     elif t == "EURange":
-        assert num(j["TypeId"]["Id"]) == 885 and float(num(j["Body"]["Low"])) == float(v["low"]) and float(num(j["Body"]["High"])) == float(v["high"])
+        assert num(j["TypeId"]["Id"]) == 885
+        shape({"t": "Double", "v": v["low"]}, j["Body"]["Low"])        # a bound is a Double: non-finite bounds are the quoted tokens
+        shape({"t": "Double", "v": v["high"]}, j["Body"]["High"])
     elif t == "EngineeringUnits":
         b = j["Body"]
         assert num(j["TypeId"]["Id"]) == 888 and num(b["UnitId"]) == v["unit_id"] and b["NamespaceUri"] == v["uri"]
